@@ -248,7 +248,9 @@ def gen_decimal(dt, rng, n):
         digits = str(m).lstrip('0') or '0'
         s, lab = spell_decimal(rng, digits, -frac, neg)
         if rng.random() < 0.3:
-            s, lab = s.replace('0', '_0', 1) if '0' in s else '_' + s, 'underscore-anywhere'
+            # Decimal() drops underscores wherever they are (after removing surrounding whitespace): put one right after the first digit, and one in front of a bare number
+            i = next(j for j, c in enumerate(s) if c.isdigit())
+            s, lab = (s[:i + 1] + '_' + s[i + 1:] if s != s.strip() or rng.random() < 0.5 else '_' + s), 'underscore-anywhere'
         items.append(Item(s, dom_of(x, True), 'str-' + lab, expected=exp))
         if x.denominator == 1:
             items.append(Item(int(x), dom_of(x, True), 'int', expected=exp))
@@ -274,7 +276,7 @@ def gen_decimal(dt, rng, n):
     items.append(Item(True, 'skip', 'bool', expected=fmt_fixed_independent(Fraction(1), frac)))
     for v, note in [(float('nan'), 'nan'), (float('inf'), 'inf'), (Decimal('NaN'), 'decimal-nan'), (Decimal('-Infinity'), 'decimal-inf'), (DT.datetime(2020, 1, 1), 'datetime')] + GARBAGE_COMMON:
         items.append(Item(v, 'out', note))
-    for s in ['', ' ', 'abc', 'NaN', 'Infinity', '-inf', '1..2', '1e', '--1', '1,5', '1.5x', '0x10', '1 5', '٣.x', '.', '+', 'e5']:
+    for s in ['', ' ', 'abc', 'NaN', 'Infinity', '-inf', '1..2', '1e', '--1', '1,5', '1.5x', '0x10', '1 5', '٣.x', '.', '+', 'e5', '_ 1', '1 _', '_\n.72', '1_ .5']:
         items.append(Item(s, 'out', 'garbage-str'))
     return items
 
